@@ -1,5 +1,5 @@
 """Property id -> check class; engines; properties not (yet) claimed."""
-from . import e1, e2, e3, e5, e7
+from . import e1, e2, e3, e5, e6, e7
 
 PROPS = {}
 PROPS.update(e1.PROPS)
@@ -7,8 +7,11 @@ PROPS.update(e3.PROPS)
 PROPS.update(e2.PROPS)
 PROPS.update(e7.PROPS)
 PROPS.update(e5.PROPS)
+PROPS.update(e6.PROPS)
 
 ENGINES = [
+    {"name": "E6-histories", "path": "vh/e6.py", "serves_properties": ["C09"],
+     "kind_free_text": "TLC model checking of System.tla (Memo cache model); TLC -simulate behaviours replayed in one interpreter vs fresh interpreters; TLC trace validation (TraceCreate.tla: C09 clauses)"},
     {"name": "E5-piece-length", "path": "vh/e5.py", "serves_properties": ["C12"],
      "kind_free_text": "TLC model checking of PieceLength (normaliser branches vs Valid/Norm, Auto) + TLC trace validation (TracePieceLength.tla) of recorded calls through function / library / CLI / config"},
     {"name": "E7-filesystem-effects", "path": "vh/e7.py", "serves_properties": ["C17", "C18"],
@@ -17,7 +20,7 @@ ENGINES = [
      "kind_free_text": "TLC model checking of EditModel (write path + edit semantics); TLC -simulate behaviours replayed into create/edit; TLC trace validation (TraceEdit.tla)"},
     {"name": "E3-recheck", "path": "vh/e3.py", "serves_properties": ["C04", "C05", "C16"],
      "kind_free_text": "TLC model checking of FeedChecker/HashChecker vs RecheckRef + TLC trace validation (TraceRecheck.tla) of recorded rechecks"},
-    {"name": "E1-create-hashers", "path": "vh/e1.py", "serves_properties": ["C01", "C02", "C03", "C10", "C15"],
+    {"name": "E1-create-hashers", "path": "vh/e1.py", "serves_properties": ["C01", "C02", "C03", "C08", "C10", "C15"],
      "kind_free_text": "TLC model checking of HasherV1/HasherV2 + TLC trace validation (TraceCreate.tla) of recorded creates"},
 ]
 
